@@ -82,6 +82,12 @@ func genC19(r *Rng, tier string) *c19W {
 		if r.Chance(60) {
 			d["s"] = Pick(r, []string{"a", "b", "c", "d", "e"})
 		}
+		if r.Chance(45) {
+			// look-alike values of different kinds: distinct terms, distinct types
+			// (only term and type aggregations use this field: whether "4" counts
+			// as a number for a histogram is not specified)
+			d["m"] = []interface{}{"1", 1.0, true, "true", "4", 4.0, false, "false", "0.5", 0.5}[r.Intn(10)]
+		}
 		if r.Chance(50) {
 			o := map[string]interface{}{}
 			for _, k := range []string{"k1", "k2", "k3"} {
@@ -114,6 +120,9 @@ func genC19(r *Rng, tier string) *c19W {
 		case 1, 2:
 			a.Kind = "term"
 			a.Size = []uint32{0, 0, 1, 2, 100}[r.Intn(5)]
+			if r.Chance(35) {
+				a.Field = "m"
+			}
 		case 3:
 			a.Kind = "histogram"
 			a.Interval = []uint32{1, 2, 5}[r.Intn(3)]
@@ -124,6 +133,9 @@ func genC19(r *Rng, tier string) *c19W {
 			a.Kind, a.Field = "field", Pick(r, []string{"o", "_data"})
 		default:
 			a.Kind = "type"
+			if r.Chance(35) {
+				a.Field = "m"
+			}
 		}
 		w.Aggs = append(w.Aggs, a)
 	}
